@@ -183,7 +183,7 @@ func streamC28(h *H) {
 		paths = append(paths, strings.Join(s, "/"), "/"+strings.Join(s, "/"))
 	}
 	n := 0
-	if h.Seed <= 3 || h.Thorough() { // the exhaustive part does not depend on the seed
+	if (!h.Thorough() && h.Seed <= 3) || (h.Thorough() && h.Seed%3 == 1) { // the exhaustive part does not depend on the seed: once per run
 		for _, s := range c28Seqs(shapes, maxParts) {
 			for _, abs := range []string{"", "/"} {
 				n++
@@ -247,7 +247,7 @@ func streamC28(h *H) {
 		}
 		return l
 	}
-	for i, nb := 0, h.N(700, 60000); i < nb; i++ {
+	for i, nb := 0, h.N(700, 30000); i < nb; i++ {
 		p := genPat(5)
 		if h.Intn(10) == 0 {
 			p = "!" + p
@@ -259,7 +259,7 @@ func streamC28(h *H) {
 	}
 
 	// ---- C. pattern lists with negated patterns (List / ListWithChild, early break)
-	for i, nl := 0, h.N(500, 40000); i < nl; i++ {
+	for i, nl := 0, h.N(500, 20000); i < nl; i++ {
 		k := 1 + h.Intn(4)
 		var pats []string
 		for j := 0; j < k; j++ {
